@@ -126,6 +126,24 @@ pub fn run(ctx: &mut Ctx) {
             }
         }
     }
+    // spelling twins: the needle's twin (other type, same spelling) sits in a long haystack
+    for n in al::size_classes(ctx.tier_thorough) {
+        if !ctx.mine() {
+            continue;
+        }
+        for (x, y) in al::spelling_twins() {
+            for (needle, other) in [(x.clone(), y.clone()), (y.clone(), x.clone())] {
+                for pos in [0usize, n / 2, n - 1] {
+                    ctx.edge();
+                    let hay: Vec<Value> = (0..n).map(|i| if i == pos { other.clone() } else { json!(format!("pad{}", i)) }).collect();
+                    ctx.check("in:size-probe:twins", &json!({"in": [{"var": "n"}, {"var": "h"}]}), &json!({"n": needle, "h": hay}));
+                    let both: Vec<Value> = (0..n).map(|i| if i == pos { other.clone() } else if i == n - 1 - pos { needle.clone() } else { json!(i) }).collect();
+                    ctx.check("in:size-probe:twins:both", &json!({"in": [{"var": "n"}, {"var": "h"}]}), &json!({"n": needle, "h": both}));
+                    ctx.check("merge:size-probe:twins", &json!({"merge": [{"var": "h"}, {"var": "n"}, [{"var": "n"}]]}), &json!({"n": needle, "h": both}));
+                }
+            }
+        }
+    }
     // merge of data-carried markers must keep them inert
     if ctx.mine() {
         let d = json!({"m": {"var": "s"}, "arr": [{"var": "s"}, [{"+": ["x"]}]], "s": "SECRET"});
